@@ -1,6 +1,7 @@
 import NitroVerif.Lemmas.AstSchema
 import NitroVerif.Lemmas.SchemaIR
 import NitroVerif.Lemmas.Introspect
+import NitroVerif.Lemmas.Routes
 import NitroVerif.Model.CliSchema
 import NitroVerif.Spec.IntrospectSpec
 /-!
@@ -91,13 +92,6 @@ example : WellFormed
       roots := { query := some "Query" } } :=
   ⟨by decide, by decide⟩
 
-/-- what the reader keeps of a schema value rendered as an introspection result: everything, with the components
-    outside a definition's kind emptied (`possibleTypes` of an interface is not read), first definition of a
-    repeated name kept, root-types node at a built-in position -/
-def readBack (s : Schema) : Schema :=
-  { desc := s.desc, roots := s.roots, explicitRoots := false,
-    types := extendTypes [] (s.types.map cleanType), directives := extendDirectives [] s.directives }
-
 /-- The reader inverts the specification's renderer: for EVERY schema value with a query root (arbitrary names,
     descriptions, nesting depth of list / non-null types, arguments, deprecations, directive definitions), reading its
     introspection result (spec §4 encoding, every optional key present) succeeds and returns the schema itself — no
@@ -105,12 +99,12 @@ def readBack (s : Schema) : Schema :=
     `isRepeatable`, default-value string or root name is lost or invented. -/
 theorem C15_reader_inverts_renderer (s : Schema) (url : String → Option String) (q : String)
     (hq : s.roots.query = some q) :
-    Introspect.fromIntrospection (IntrospectSpec.encode s url) = .ok (readBack s) :=
+    Introspect.fromIntrospection (IntrospectSpec.encode s url) = .ok (Introspect.readBack s) :=
   Introspect.fromIntrospection_encode s url q hq
 
 /-- … in particular on the introspection result of a type-system document `M` whose query root exists -/
 theorem C15_schema_eq_reader (M : Gql.TsDoc) (q : String) (hq : (IntrospectSpec.specRoots M).query = some q) :
-    Introspect.fromIntrospection (IntrospectSpec.introspectSpec M) = .ok (readBack (IntrospectSpec.specSchema M)) :=
+    Introspect.fromIntrospection (IntrospectSpec.introspectSpec M) = .ok (Introspect.readBack (IntrospectSpec.specSchema M)) :=
   Introspect.fromIntrospection_encode _ _ q hq
 
 /-- the hypothesis is satisfiable: a document with a `Query` object type and no schema definition -/
@@ -126,7 +120,7 @@ theorem C15_reader_identity (s : Schema) (url : String → Option String) (q : S
   have hc : s.types.map cleanType = s.types := by
     conv => rhs; rw [← List.map_id s.types]
     exact List.map_congr_left fun t ht => by simpa using h.clean t ht
-  simp only [readBack, hc, extendTypes_nil_nodup _ h.nodup, extendDirectives_nil_nodup _ hd]
+  simp only [Introspect.readBack, hc, extendTypes_nil_nodup _ h.nodup, extendDirectives_nil_nodup _ hd]
 
 /-- Root operation types that an introspection result declares are not replaced by the default names: with
     `mutationType: null` a mutation has NO root type even if a type named `Mutation` exists (repaired behaviour;
@@ -166,33 +160,141 @@ theorem C15_builtin_scalars_defined (s : Schema) (n : String) (hn : n ∈ ["Int"
   simp only [CliSchema.builtinScalarDefs, List.mem_append, List.mem_map]
   exact Or.inr ⟨n, hn, rfl⟩
 
+/-- The executable check the driver uses (`equivB`: compares the lookups on the names occurring in either schema)
+    decides `≃`. -/
+theorem equivB_iff (a b : Schema) : equivB a b = true ↔ a ≃ b := SchemaIR.equivB_iff a b
+
+/-! ### the two routes, lookup by lookup (`Routes.jsonSide M` = the JSON route's schema for `introspectSpec M`) -/
+
+/-- `typeDef?`: for every name that does not start with `__`, both routes find a definition or both find none, of the
+    same kind, with the same fields (names, types, arguments with their types and "has a default"), enum values, input
+    fields, union members and interface list — up to descriptions / deprecation reasons / default texts. No hypothesis
+    on `M`. -/
+theorem C15_schema_eq_typeDef (M : Gql.TsDoc) (n : String) (hn : isIntrospectionName n = false) :
+    ((Routes.jsonSide M).typeDef? n).map eraseType = ((CliSchema.routeSdl M).typeDef? n).map eraseType := by
+  have := Routes.viewType_routes M n
+  simpa [viewType, hn] using this
+
+/-- `fieldsOf` (fields with their arguments) of a type name, on both routes -/
+theorem C15_schema_eq_fieldsOf (M : Gql.TsDoc) (n : String) (hn : isIntrospectionName n = false) :
+    ((Routes.jsonSide M).fieldsOf n).map eraseField = ((CliSchema.routeSdl M).fieldsOf n).map eraseField := by
+  have h := C15_schema_eq_typeDef M n hn
+  simp only [Schema.fieldsOf]
+  cases hj : (Routes.jsonSide M).typeDef? n <;> cases hs : (CliSchema.routeSdl M).typeDef? n <;>
+    simp [hj, hs] at h ⊢
+  exact congrArg ITypeDef.fields h
+
+/-- enum values and input fields of a type name, on both routes -/
+theorem C15_schema_eq_members_inputs (M : Gql.TsDoc) (n : String) (hn : isIntrospectionName n = false) :
+    ((Routes.jsonSide M).typeDef? n).map (fun t => (t.members.map eraseMember, t.inputs.map eraseIV))
+      = ((CliSchema.routeSdl M).typeDef? n).map (fun t => (t.members.map eraseMember, t.inputs.map eraseIV)) := by
+  have h := C15_schema_eq_typeDef M n hn
+  cases hj : (Routes.jsonSide M).typeDef? n <;> cases hs : (CliSchema.routeSdl M).typeDef? n <;>
+    simp [hj, hs] at h ⊢
+  exact ⟨congrArg ITypeDef.members h, congrArg ITypeDef.inputs h⟩
+
+/-- implementers of an interface: the same list, in the same order, when type names are distinct -/
+theorem C15_schema_eq_implementers (M : Gql.TsDoc) (h : ((IntrospectSpec.userTypes M).map (·.name)).Nodup) (i : String) :
+    (Routes.jsonSide M).objectImplementers i = (CliSchema.routeSdl M).objectImplementers i :=
+  Routes.objectImplementers_routes M h i
+
+/-- `possibleTypes` of a composite type name, on both routes -/
+theorem C15_schema_eq_possibleTypes (M : Gql.TsDoc) (h : ((IntrospectSpec.userTypes M).map (·.name)).Nodup) (n : String)
+    (hn : isIntrospectionName n = false) :
+    (Routes.jsonSide M).possibleTypes n = (CliSchema.routeSdl M).possibleTypes n := by
+  have ht := C15_schema_eq_typeDef M n hn
+  simp only [Schema.possibleTypes, C15_schema_eq_implementers M h]
+  cases hj : (Routes.jsonSide M).typeDef? n <;> cases hs : (CliSchema.routeSdl M).typeDef? n <;>
+    simp [hj, hs] at ht ⊢
+  rename_i a b
+  have hk0 : (eraseType a).kind = (eraseType b).kind := congrArg ITypeDef.kind ht
+  have hn0 : (eraseType a).name = (eraseType b).name := congrArg ITypeDef.name ht
+  have hp0 : (eraseType a).possible = (eraseType b).possible := congrArg ITypeDef.possible ht
+  have hk : a.kind = b.kind := hk0
+  have hname : a.name = b.name := hn0
+  have hp : a.possible = b.possible := hp0
+  rw [hk, hname, hp]
+
+/-- `directiveDef?`: the same definition (locations, arguments, repeatability) on both routes for every directive name
+    except the nitrogql-only `@nitrogql_ts_type`, provided `M` does not redefine a built-in directive -/
+theorem C15_schema_eq_directiveDef (M : Gql.TsDoc)
+    (hd : ∀ d ∈ IntrospectSpec.userDirectives M, d.name ∉ Routes.builtinDirectiveNames) (n : String) :
+    viewDirective (Routes.jsonSide M) n = viewDirective (CliSchema.routeSdl M) n :=
+  Routes.viewDirective_routes M hd n
+
+/-- `rootName`: an operation kind is checked against the same root type definition on both routes, or rejected on both -/
+theorem C15_schema_eq_rootName (M : Gql.TsDoc) (h : Routes.ValidResolved M) (k : OpK) :
+    viewRoot (Routes.jsonSide M) k = viewRoot (CliSchema.routeSdl M) k :=
+  (Routes.routes_equiv M h).roots k
+
+/-- **The whole JSON route equals the SDL route on the lookup interface.** For every valid resolved type-system
+    document `M`: reading the spec's introspection result of `M` the way the CLI does (reader + the five built-in
+    scalars) succeeds, and the schema obtained is `≃` the schema the CLI builds from the SDL (`M` + built-ins through
+    `ast_to_type_system`). -/
+theorem C15_schema_eq (M : Gql.TsDoc) (h : Routes.ValidResolved M) :
+    ∃ s, CliSchema.routeJson (IntrospectSpec.introspectSpec M) = .ok s ∧ s ≃ CliSchema.routeSdl M := by
+  obtain ⟨q, hq⟩ := Option.isSome_iff_exists.mp h.query
+  exact ⟨Routes.jsonSide M, Routes.routeJson_spec M q hq, Routes.routes_equiv M h⟩
+
+/-- the hypotheses are satisfiable by a non-trivial document: explicit schema definition without mutation, a decoy
+    type `Mutation`, an interface chain, a union, an enum with a deprecated value, an input object, a custom directive -/
+example : Routes.ValidResolved
+    [ .schemaDef { roots := [(.query, "Q", {})] },
+      .typeDef { kind := .interface, name := "Node", fields := [{ name := "id", ty := .nonNull (.named "ID" {}) }] },
+      .typeDef { kind := .interface, name := "Ent", implements := [("Node", {})],
+                 fields := [{ name := "id", ty := .nonNull (.named "ID" {}) }] },
+      .typeDef { kind := .object, name := "U", implements := [("Ent", {}), ("Node", {})],
+                 fields := [{ name := "id", ty := .nonNull (.named "ID" {}) }] },
+      .typeDef { kind := .object, name := "Q",
+                 fields := [{ name := "n", ty := .named "Node" {},
+                              args := [{ name := "f", ty := .named "In" {}, default := some (.null {}) }] }] },
+      .typeDef { kind := .object, name := "Mutation", fields := [{ name := "x", ty := .named "Int" {} }] },
+      .typeDef { kind := .union, name := "S", members := [("U", {}), ("Q", {})] },
+      .typeDef { kind := .enum, name := "E", values := [{ name := "A", dirs := [{ name := "deprecated" }] }, { name := "B" }] },
+      .typeDef { kind := .input, name := "In", inputs := [{ name := "e", ty := .list (.named "E" {}) {} }] },
+      .directiveDef { name := "tag", repeatable := true, locations := ["FIELD"] } ] :=
+  ⟨by decide, by decide, by decide, by decide, by decide⟩
+
+/-- **Corollary (check).** Any checker that reads the schema only through the lookup interface returns the same
+    diagnostics — hence the same verdict — for every operation document on the two routes of a valid `M`. -/
+theorem C15_routes_agree_check {Doc Err : Type} (checkOp : Lookup → Doc → List Err) (M : Gql.TsDoc)
+    (h : Routes.ValidResolved M) :
+    ∃ s, CliSchema.routeJson (IntrospectSpec.introspectSpec M) = .ok s ∧
+      ∀ D, checkOp (lookupOf s) D = checkOp (lookupOf (CliSchema.routeSdl M)) D := by
+  obtain ⟨s, hs, he⟩ := C15_schema_eq M h
+  exact ⟨s, hs, fun D => C15_check_eq checkOp he D⟩
+
+/-- **Corollary (generate).** Any declaration generator that reads the schema only through the lookup interface emits the
+    same declaration for every alias name, configuration and operation document on the two routes of a valid `M`. -/
+theorem C15_routes_agree_types {Cfg Doc Decl : Type} (decls : Cfg → Lookup → Doc → String → Option Decl) (M : Gql.TsDoc)
+    (h : Routes.ValidResolved M) :
+    ∃ s, CliSchema.routeJson (IntrospectSpec.introspectSpec M) = .ok s ∧
+      ∀ c D a, decls c (lookupOf s) D a = decls c (lookupOf (CliSchema.routeSdl M)) D a := by
+  obtain ⟨s, hs, he⟩ := C15_schema_eq M h
+  exact ⟨s, hs, fun c D a => C15_types_eq decls he c D a⟩
+
+/-- `C15_routes_agree`: both corollaries together -/
+theorem C15_routes_agree {Cfg Doc Err Decl : Type} (checkOp : Lookup → Doc → List Err)
+    (decls : Cfg → Lookup → Doc → String → Option Decl) (M : Gql.TsDoc) (h : Routes.ValidResolved M) :
+    ∃ s, CliSchema.routeJson (IntrospectSpec.introspectSpec M) = .ok s ∧
+      (∀ D, checkOp (lookupOf s) D = [] ↔ checkOp (lookupOf (CliSchema.routeSdl M)) D = []) ∧
+      (∀ c D a, decls c (lookupOf s) D a = decls c (lookupOf (CliSchema.routeSdl M)) D a) := by
+  obtain ⟨s, hs, he⟩ := C15_schema_eq M h
+  exact ⟨s, hs, fun D => C15_check_verdict_eq checkOp he D, fun c D a => C15_types_eq decls he c D a⟩
+
 /-!
 ## OPEN — carried by K/O only
 
-```
-theorem C15_schema_eq (M : Gql.TsDoc) (h : ValidResolved M) :
-    ∃ s, CliSchema.routeJson (IntrospectSpec.introspectSpec M) = .ok s ∧ s ≃ CliSchema.routeSdl M
-```
-(`ValidResolved M`: distinct type and directive names, none `__`-prefixed or equal to a built-in's, at most one schema
-definition — parsed, listing `query` — or else an object type `Query`.)
-Proved above: `routeJson (introspectSpec M) = ok (addBuiltinScalars (readBack (specSchema M)))`
-(`C15_schema_eq_reader`), i.e. the JSON half is an identity. NOT proved: the remaining comparison of two pure
-functions of `M`, `addBuiltinScalars (readBack (specSchema M)) ≃ astToSchema (M ++ builtins)` (first-definition-wins
-lookup through `extendTypes` on both sides, referenced-built-in filter, `__*` names invisible to `viewType`, root
-names). It is EVALUATED by the driver (`(equiv (route.json …) (route.sdl …))`, `equivB`) on every generated schema
-of every run (failure signature `model-routes-not-equivalent:*`), and the real CLI routes are compared on the same
-cases (O).
+That the REAL checker (`check_operation_document`) and the REAL printers read the schema only through `lookupOf` — the
+hypothesis under which `C15_routes_agree` applies to them (descriptions, deprecation reasons and default-value texts
+reach JSDoc comments only; the order of definitions reaches declaration order and union-member order only; `__*` types
+are asked for only by documents that name them) — is NOT proved: the checker and printer models of the other
+properties work over `Gql.Schema`, not over `SchemaIR`. It is carried by O: same verdicts, diagnostics and per-alias
+declarations from two real CLI projects that differ in the schema file only, on every generated case.
 
-```
-theorem equivB_iff (a b : Schema) : equivB a b = true ↔ a ≃ b
-```
-The executable check used by the driver looks only at names occurring in either schema; its equivalence with `≃`
-(other names look up `none` on both sides) is not proved.
-
-That the REAL checker / printers read the schema only through `lookupOf` (the hypothesis under which `C15_check_eq` and
-`C15_types_eq` apply to them: descriptions, deprecation reasons and default-value texts reach JSDoc only; the order of
-definitions reaches declaration and union-member order only) is carried by O: same verdicts, diagnostics and
-per-alias declarations from two real CLI projects that differ in the schema file only.
+`routeSdl M = astToSchema (M ++ builtins)` places the built-ins after `M`, as `extend_loaded_schema` does; the real
+pipeline then regroups the definitions in `resolve_schema_extensions` (C11). `≃` does not depend on that order; the K
+stream `route-sdl` compares modulo it.
 -/
 
 end NitroVerif.C15
